@@ -12,7 +12,7 @@ import (
 // extractFacts regenerates lean/Csproto/Generated/*.lean from /repo's current source.
 func extractFacts(c *fw.Ctx) []string {
 	bin := filepath.Join(fw.VerifDir, "harness/bin/extract")
-	cmd := exec.Command(bin, "-repo", "/repo", "-out", filepath.Join(fw.VerifDir, "lean/Csproto/Generated"))
+	cmd := exec.Command(bin, "-repo", fw.RepoDir, "-out", filepath.Join(fw.VerifDir, "lean/Csproto/Generated"))
 	out, err := cmd.CombinedOutput()
 	if err != nil {
 		c.BrokenProof = append(c.BrokenProof, "fact extraction failed: "+strings.TrimSpace(string(out)))
